@@ -73,6 +73,11 @@ pub fn programs(thorough: bool) -> Vec<Cmd> {
         out.push(seq(vec![pl.clone(), p(0)]));
         out.push(seq(vec![Cmd::SetPipefail(true), pl.clone(), p(0)]));
     }
+    // job control on: the pipeline runs through execute_job_controlled_pipeline (one more subshell)
+    for pl in pipes.iter().step_by(2) {
+        out.push(seq(vec![Cmd::SetM(true), pl.clone(), p(0)]));
+        out.push(seq(vec![Cmd::SetM(true), Cmd::SetPipefail(true), pl.clone(), p(0), Cmd::SetM(false), pl.clone(), p(0)]));
+    }
     for pl in pipes.iter().step_by(5) {
         out.push(seq(vec![Cmd::Not(bx(pl.clone())), p(0)]));
         out.push(seq(vec![Cmd::Subshell(bx(pl.clone())), p(0)]));
